@@ -969,7 +969,10 @@ class EventGenerator:
                         if j < len(values):
                             rolling = True
                             value = values[j]
-                            if value is not None or var.nillable or var.is_elements:
+                            if var.is_elements:
+                                # One item of a compound field, it may be None or a tokens list
+                                yield var, [value]
+                            elif value is not None or var.nillable:
                                 yield var, value
                     elif j == 0:
                         rolling = True
